@@ -39,6 +39,9 @@ def make_case(seed, idx, tier):
         d = gen.gen_tree_case(rng, prof)
         d["options"]["random_seed"] = rng.randint(0, 10**6)
         d["kind"] = "c13run"
+        if (idx // 10) % 4 == 2:
+            # both formulations built with result caching on, run one after the other in one process: they visit the same genomes
+            d["use_cache"] = True
         if (idx // 10) % 3 == 1:
             # an evaluation-cutoff wrapper that runs out while the run goes on: the +-inf sentinels must mirror too
             d["gsc"] = {"k": "melimit", "n": rng.randint(5, 9)}
@@ -317,6 +320,8 @@ def run_twin(desc):
     res = run_result(ca, da)
     cov = res["cov"]
     cov["run_twins"] += 1
+    if desc.get("use_cache"):
+        cov["run_twins_with_result_caching_on_both_formulations"] += 1
     for lv in desc["levels"]:
         cov[f"twin_engine.{lv['engine']}"] += 1
     if ca.aborted or cb.aborted:
